@@ -1162,6 +1162,7 @@ type qcaller struct {
 	parkEvery   bool // park before EVERY non-marker write (qlist) instead of only the first
 	class       int  // class of the write the caller is parked at: 0 other, 1 by-id record of a code, 2 the client's index
 	parkedAdmit bool
+	parkedProbe bool
 	parkedWrite bool
 	arrived     chan struct{}
 	release     chan struct{}
@@ -1240,6 +1241,22 @@ func (s *gatedStore) Set(key string, value any, ttl time.Duration) error {
 func (s *gatedStore) SetNX(key string, value any, ttl time.Duration) (bool, error) {
 	s.gate(key)
 	return s.Storage.SetNX(key, value, ttl)
+}
+
+// Exists on an admission marker: the code's AcquireAdmission is a single SetNX and never looks at the marker again; a tree
+// that does (SetNX lost, then Exists) gets a park point here, so that the marker can be released between the two calls
+func (s *gatedStore) Exists(key string) (bool, error) {
+	if strings.HasPrefix(key, admitPrefix) {
+		s.mu.Lock()
+		q := s.callers[gid()]
+		s.mu.Unlock()
+		if q != nil && !q.parkedProbe {
+			q.parkedProbe = true
+			q.arrived <- struct{}{}
+			<-q.release
+		}
+	}
+	return s.Storage.Exists(key)
 }
 func (s *gatedStore) Delete(key string) error {
 	if !strings.HasPrefix(key, admitPrefix) { // giving the marker back is part of the step that ends the request
